@@ -33,6 +33,7 @@ func init() {
 			{ID: "C05.R13", Text: "a save that returned is over: the checkpoint writes to the configured backend, the supplied store or the read-only wrapper — dcp.metadata is assigned nothing else (no decorator whose write can outlive the call)", Run: metadataIsTheConfiguredOne},
 			{ID: "C05.R14", Text: "saves happen and mean what they say: the session flags: Close records its closeWithCancel argument (before closing streams) in the flag the end listener reads; stops the mitigation ⇔ ¬Disabled and the schedule ⇔ checkpoint≠nil; hands the finish token ⇔ ¬finishedWithEndEvent; open←true ends Open and open←false is stored by Close; Stream.Save is Checkpoint.Save; Open starts the schedule, whose loop saves under Type==auto", Run: sessionFlags},
 			{ID: "C05.R15", Text: "the per-vBucket checkpoint write is upsert | upsert(key not found)→create | →create(ok)→upsert, and the error of the last step taken is the result", Run: upsertLadder},
+			{ID: "C05.R16", Text: "an explicit Commit saves: the client's start and close paths call by call — Commit is Stream.Save under no condition (same rule as C13.R23)", Run: clientWiring},
 			{ID: "C05.R8", Text: "mark/clear atomicity: the sites that mark the dirty state and the site that clears it hold a common mutex", Run: c05r8},
 		},
 	})
